@@ -11,6 +11,9 @@ from cryptography import x509
 from ..protocol.constants import CRLF, MAX_RESPONSE_BODY_SIZE
 from ..protocol.response import GeminiResponse
 
+# Longest valid response header: "<2-digit status> <meta of up to 1024 bytes>"
+MAX_HEADER_LINE_SIZE = 2 + 1 + 1024
+
 
 class GeminiClientProtocol(asyncio.Protocol):
     """Client-side protocol for making Gemini requests.
@@ -76,6 +79,14 @@ class GeminiClientProtocol(asyncio.Protocol):
         """
         self.buffer += data
 
+        # A header line longer than the protocol allows is refused as soon as
+        # that is certain, whether or not its CRLF has arrived yet - so the
+        # outcome does not depend on how the stream is split into reads
+        if not self.header_received and self._header_too_long():
+            self._set_error(ValueError("Response header too long"))
+            self.transport.close()  # type: ignore
+            return
+
         # Check if we've received the complete header
         if not self.header_received and CRLF in self.buffer:
             header_line, body = self.buffer.split(CRLF, 1)
@@ -101,6 +112,19 @@ class GeminiClientProtocol(asyncio.Protocol):
                 )
             )
             self.transport.close()  # type: ignore
+
+    def _header_too_long(self) -> bool:
+        """Check whether the (possibly still incomplete) header line is too long.
+
+        Returns:
+            True if the header line in the buffer exceeds MAX_HEADER_LINE_SIZE.
+        """
+        end = self.buffer.find(CRLF)
+        if end < 0:
+            # No CRLF yet: the line is at least everything received so far,
+            # minus a trailing CR that may turn out to belong to the CRLF
+            end = len(self.buffer) - (1 if self.buffer.endswith(b"\r") else 0)
+        return end > MAX_HEADER_LINE_SIZE
 
     def _parse_header(self, header_line: str) -> None:
         """Parse the Gemini response header.
@@ -181,7 +205,10 @@ class GeminiClientProtocol(asyncio.Protocol):
                             break
                 try:
                     body = self.buffer.decode(charset)
-                except UnicodeDecodeError as e:
+                except (ValueError, LookupError) as e:
+                    # Undecodable body, or a charset label Python does not
+                    # know (LookupError): report it instead of leaving the
+                    # caller waiting for a response that never comes
                     self.response_future.set_exception(e)
                     return
             else:
@@ -306,6 +333,14 @@ class TitanClientProtocol(asyncio.Protocol):
         """
         self.buffer += data
 
+        # A header line longer than the protocol allows is refused as soon as
+        # that is certain (see GeminiClientProtocol.data_received)
+        if not self.header_received and self._header_too_long():
+            self._set_error(ValueError("Response header too long"))
+            if self.transport:
+                self.transport.close()
+            return
+
         # Check if we've received the complete header
         if not self.header_received and CRLF in self.buffer:
             header_line, body = self.buffer.split(CRLF, 1)
@@ -333,6 +368,19 @@ class TitanClientProtocol(asyncio.Protocol):
             )
             if self.transport:
                 self.transport.close()
+
+    def _header_too_long(self) -> bool:
+        """Check whether the (possibly still incomplete) header line is too long.
+
+        Returns:
+            True if the header line in the buffer exceeds MAX_HEADER_LINE_SIZE.
+        """
+        end = self.buffer.find(CRLF)
+        if end < 0:
+            # No CRLF yet: the line is at least everything received so far,
+            # minus a trailing CR that may turn out to belong to the CRLF
+            end = len(self.buffer) - (1 if self.buffer.endswith(b"\r") else 0)
+        return end > MAX_HEADER_LINE_SIZE
 
     def _parse_header(self, header_line: str) -> None:
         """Parse the Gemini response header.
@@ -402,7 +450,10 @@ class TitanClientProtocol(asyncio.Protocol):
                             break
                 try:
                     body = self.buffer.decode(charset)
-                except UnicodeDecodeError as e:
+                except (ValueError, LookupError) as e:
+                    # Undecodable body, or a charset label Python does not
+                    # know (LookupError): report it instead of leaving the
+                    # caller waiting for a response that never comes
                     self.response_future.set_exception(e)
                     return
             else:
